@@ -181,6 +181,8 @@ class Mut(Ev):
         super().__init__(node, func, stack)
         self.cls, self.attr, self.recv, self.op, self.args = cls, attr, recv, op, args
         self.argnodes = argnodes or []
+        self.facts = {}
+        self.heap = {}
 
     def __repr__(self):
         return f"mut {self.cls}.{self.attr}.{self.op}({', '.join(map(repr, self.args))}) @{self.loc}"
@@ -205,6 +207,7 @@ class Loop(Ev):
         super().__init__(node, func, stack)
         self.iter_text, self.coll, self.var, self.alts, self.elem_cls = iter_text, coll, var, alts, elem_cls
         self.self_obj = None
+        self.elem_heap = {}
 
     def __repr__(self):
         return f"loop {self.iter_text} x{len(self.alts)} @{self.loc}"
@@ -219,6 +222,18 @@ class Cond(Ev):
 
     def __repr__(self):
         return f"cond {'' if self.truth else 'not '}({self.text}){'?' if self.forked else ''} @{self.loc}"
+
+
+class LocalSet(Ev):
+    """A local name is bound to a collection value (logged so that rules can see candidate lists being rebuilt)."""
+    kind = "local"
+
+    def __init__(self, name, value, node, func, stack):
+        super().__init__(node, func, stack)
+        self.name, self.value = name, value
+
+    def __repr__(self):
+        return f"local {self.name} := {self.value!r} @{self.loc}"
 
 
 class Read(Ev):
@@ -276,6 +291,7 @@ class State:
         self.memo = {}
         self.trace = []
         self.neq = {}  # symbol text -> set of excluded Const values (light disequality facts)
+        self.facts = {}  # canonical predicate text -> (truth, frozenset of attribute names it depends on)
 
     def copy(self):
         s = State()
@@ -285,6 +301,7 @@ class State:
         s.memo = dict(self.memo)
         s.trace = list(self.trace)
         s.neq = {k: set(v) for k, v in self.neq.items()}
+        s.facts = dict(self.facts)
         return s
 
 
@@ -315,6 +332,7 @@ class Interp:
         self.log_reads = False
         self._cmp_consts = None
         self.unroll_while = unroll_while  # >0: execute `while` loops concretely for up to that many iterations
+        self._quiet = 0  # >0: re-evaluation for refinement only -- no Call / Read events are logged
         self.npaths = 0
         self._fresh = itertools.count()
         self.unknown_stmts = []
@@ -634,7 +652,11 @@ class Interp:
         res = []
         for truth in (True, False):
             s2 = st.copy()
-            ok = self.assume(test, truth, s2, fr)
+            self._quiet += 1
+            try:
+                ok = self.assume(test, truth, s2, fr)
+            finally:
+                self._quiet -= 1
             if ok is False:
                 continue
             s2.memo[key] = truth
@@ -702,6 +724,60 @@ class Interp:
                     attrs.add(e.attr)
         return attrs
 
+    @staticmethod
+    def _source_name(e, sorters=()):
+        """Peel list()/sorted()/filter()/comprehension/permutation-sorter wrappers; -> the Name the value derives from."""
+        while True:
+            if isinstance(e, ast.Name):
+                return e.id
+            if isinstance(e, ast.Call) and isinstance(e.func, ast.Name):
+                n = e.func.id
+                if n in ("list", "sorted", "tuple") and e.args:
+                    e = e.args[0]
+                    continue
+                if n == "filter" and len(e.args) == 2:
+                    e = e.args[1]
+                    continue
+                if (n.startswith("sort_") or n in sorters) and e.args:
+                    e = e.args[0]
+                    continue
+                return None
+            if isinstance(e, ast.ListComp) and len(e.generators) == 1 and isinstance(e.elt, ast.Name) \
+                    and isinstance(e.generators[0].target, ast.Name) and e.elt.id == e.generators[0].target.id:
+                e = e.generators[0].iter
+                continue
+            return None
+
+    def _self_refining(self, st, names, attrs, stmts, fr):
+        """Names bound to a filtered collection whose every re-assignment in `stmts` only narrows / reorders it:
+        the element facts survive the loop (except facts that read something the loop changes)."""
+        keep = {}
+        for n in names:
+            v = st.env.get(n)
+            if not isinstance(v, CollV):
+                continue
+            ok, seen = True, False
+            for s0 in stmts:
+                for a in ast.walk(s0):
+                    if isinstance(a, ast.Assign) and any(isinstance(t, ast.Name) and t.id == n for t in a.targets):
+                        seen = True
+                        if self._source_name(a.value) != n:
+                            ok = False
+                    elif isinstance(a, (ast.AugAssign, ast.For)) and any(isinstance(t, ast.Name) and t.id == n for t in ast.walk(a.target)):
+                        ok = False
+                    elif isinstance(a, ast.Call) and isinstance(a.func, ast.Attribute) and isinstance(a.func.value, ast.Name) and a.func.value.id == n \
+                            and a.func.attr in MUTATORS and a.func.attr not in ("remove", "pop", "sort", "reverse", "discard"):
+                        ok = False
+            if ok and seen:
+                preds = []
+                for pn, body in v.preds:
+                    conjs = body.values if isinstance(body, ast.BoolOp) and isinstance(body.op, ast.And) else [body]
+                    for c in conjs:
+                        if not (self.pred_reads(c, fr) & attrs):
+                            preds.append((pn, c))
+                keep[n] = CollV(v.base, preds, v.typ, v.kind)
+        return keep
+
     def havoc(self, st, names, attrs, fr):
         for n in names:
             if n in st.env:
@@ -715,6 +791,7 @@ class Interp:
         if attrs:
             for k in [k for k in st.memo if any(a in k[1] for a in attrs)]:
                 del st.memo[k]
+            self._drop_facts(st, attrs)
 
     def exec_for(self, s, st, fr):
         coll = self.eval(s.iter, st, fr, effects=True)
@@ -729,44 +806,95 @@ class Interp:
             if isinstance(t, ast.Name):
                 names.add(t.id)
         attrs |= self._callee_write_attrs(s.body, fr)
+        keep = self._self_refining(st, names, attrs, s.body + s.orelse, fr)
         self.havoc(st, names, attrs, fr)
+        st.env.update(keep)
         et = None
         ct = fr.ft.type_of(s.iter)
         if ct and ct[0] in ("list", "set"):
             et = ct[1]
         var = self._fresh_elem(key, et)
-        body_st = st.copy()
-        body_st.trace = []
-        self.assign(s.target, var, body_st, fr, s, quiet=True)
+        # Element facts of a filtered collection were established when the collection was built.  A fact that reads
+        # something the loop body itself changes is guaranteed only for the first iteration; it is assumed for the
+        # later ones only if every path that changes it leaves the loop.
+        stale_preds = []
+        cand_preds = []
         if isinstance(coll, CollV):
-            self.assume_elem(coll, var, body_st, fr)
+            for pname, pbody in coll.preds:
+                for conj in (pbody.values if isinstance(pbody, ast.BoolOp) and isinstance(pbody.op, ast.And) else [pbody]):
+                    if self.pred_reads(conj, fr) & attrs:
+                        cand_preds.append((pname, conj))
         alts = []
         outs = []
-        for st1, ex in self.exec_block(s.body, body_st, fr):
-            alts.append((st1.trace, ex))
-            if ex is not None and ex[0] in ("return", "raise"):
-                s2 = st1
-                tr = st.trace + [Loop(ast.unparse(s.iter), coll, var, [(st1.trace, ex)], s, fr.func, fr.stack, self._elem_cls(et))]
-                s2.trace = tr
-                outs.append((s2, ex))
+        elem_heap = {}
+        for phase in ("first", "later"):
+            body_st = st.copy()
+            body_st.trace = []
+            self.assign(s.target, var, body_st, fr, s, quiet=True)
+            if isinstance(coll, CollV):
+                self._quiet += 1
+                try:
+                    self.assume_elem(coll, var, body_st, fr, skip=stale_preds if phase == "later" else ())
+                finally:
+                    self._quiet -= 1
+            if phase == "first":
+                elem_heap = {k[1]: v for k, v in body_st.heap.items() if isinstance(var, Obj) and k[0] == var.name}
+            phase_alts = []
+            for st1, ex in self.exec_block(s.body, body_st, fr):
+                phase_alts.append((st1.trace, ex))
+                alts.append((st1.trace, ex))
+                if ex is not None and ex[0] in ("return", "raise"):
+                    s2 = st1
+                    tr = st.trace + [Loop(ast.unparse(s.iter), coll, var, [(st1.trace, ex)], s, fr.func, fr.stack, self._elem_cls(et))]
+                    s2.trace = tr
+                    outs.append((s2, ex))
+            if phase == "first":
+                if not cand_preds:
+                    break
+                # what does a continuing iteration change on objects other than its own element?
+                changed = set()
+                for tr, ex in phase_alts:
+                    if ex is None or ex[0] == "continue":
+                        for e in flatten(tr):
+                            if isinstance(e, (Store, Mut)) and not e.attr.startswith("$") and not (isinstance(e.recv, Obj) and isinstance(var, Obj) and e.recv == var):
+                                changed.add(e.attr)
+                            elif isinstance(e, Call) and not e.inlined and e.callees:
+                                for q in e.callees:
+                                    c, _, n = q.partition(".")
+                                    g0 = self.repo.lookup_method(c, n) if n else self.repo.functions.get(c)
+                                    if g0 is not None:
+                                        for g in self.eff.reachable([g0], precise=False):
+                                            changed |= {ef.attr for ef in self.eff.of(g) if ef.kind in ("store", "mut", "del")}
+                stale_preds = [(pn, cj) for pn, cj in cand_preds if self.pred_reads(cj, fr) & changed]
+                if not stale_preds:
+                    break
         lp = Loop(ast.unparse(s.iter), coll, var, alts, s, fr.func, fr.stack, self._elem_cls(et))
         lp.self_obj = st.env.get("self")
+        lp.elem_heap = elem_heap
         after = st
         after.trace.append(lp)
         self.havoc(after, names, attrs, fr)
+        after.env.update(keep)
         if s.orelse:
             outs.extend(self.exec_block(s.orelse, after, fr))
         else:
             outs.append((after, None))
         return outs
 
-    def assume_elem(self, coll, var, st, fr):
-        """Make the element facts of a CollV hold for `var` in st."""
+    def assume_elem(self, coll, var, st, fr, skip=()):
+        """Make the element facts of a CollV hold for `var` in st (except the conjuncts listed in `skip`)."""
+        skip_ids = {id(c) for _p, c in skip}
         for pname, body in coll.preds:
             saved = st.env.get(pname, None)
             had = pname in st.env
             st.env[pname] = var
-            self.assume(body, True, st, fr)
+            if skip_ids:
+                conjs = body.values if isinstance(body, ast.BoolOp) and isinstance(body.op, ast.And) else [body]
+                for c in conjs:
+                    if id(c) not in skip_ids:
+                        self.assume(c, True, st, fr)
+            else:
+                self.assume(body, True, st, fr)
             if had:
                 st.env[pname] = saved
             else:
@@ -914,6 +1042,8 @@ class Interp:
     def assign(self, target, v, st, fr, stmt, aug=None, quiet=False):
         if isinstance(target, ast.Name):
             st.env[target.id] = v
+            if not quiet and isinstance(v, (CollV, ListV)) and isinstance(stmt, ast.Assign):
+                st.trace.append(LocalSet(target.id, v, stmt, fr.func, fr.stack))
             for k in [k for k in st.memo if k[0] == fr.uid and _mentions(k[1], target.id)]:
                 del st.memo[k]
         elif isinstance(target, (ast.Tuple, ast.List)):
@@ -939,6 +1069,7 @@ class Interp:
                     del st.heap[k]
             for k in [k for k in st.memo if _mentions(k[1], target.attr)]:
                 del st.memo[k]
+            self._drop_facts(st, {target.attr})
             if not quiet:
                 st.trace.append(Store(cls, target.attr, base, v, stmt, fr.func, fr.stack, aug=aug, prev=prev))
         elif isinstance(target, ast.Subscript):
@@ -954,13 +1085,18 @@ class Interp:
                 t = fr.ft.type_of(recv_expr.value)
                 cls = t[1] if t and t[0] == "obj" else None
             cur = st.heap.get((base.name, recv_expr.attr)) if isinstance(base, Obj) else None
-            st.trace.append(Mut(cls, recv_expr.attr, base, op, args, node, fr.func, fr.stack, argnodes))
+            mev = Mut(cls, recv_expr.attr, base, op, args, node, fr.func, fr.stack, argnodes)
+            mev.facts = dict(st.facts)
+            names = {o.name for o in [base] + list(args) if isinstance(o, Obj)}
+            mev.heap = {k: v for k, v in st.heap.items() if k[0] in names}
+            st.trace.append(mev)
             if isinstance(cur, ListV) and cur.fresh and op == "append" and len(args) == 1:
                 st.heap[(base.name, recv_expr.attr)] = ListV(cur.items + [args[0]], True, cur.kind)
             elif isinstance(base, Obj):
                 st.heap.pop((base.name, recv_expr.attr), None)
             for k in [k for k in st.memo if _mentions(k[1], recv_expr.attr)]:
                 del st.memo[k]
+            self._drop_facts(st, {recv_expr.attr})
             return True
         if isinstance(recv_expr, ast.Name):
             cur = st.env.get(recv_expr.id)
@@ -1001,7 +1137,7 @@ class Interp:
             cc, self._cmp_consts = self._cmp_consts, None
             base = self.eval(e.value, st, fr, effects)
             self._cmp_consts = cc
-            if self.log_reads and isinstance(base, Obj) and base.cls and isinstance(e.ctx, ast.Load):
+            if self.log_reads and not self._quiet and isinstance(base, Obj) and base.cls and isinstance(e.ctx, ast.Load):
                 st.trace.append(Read(base.cls, e.attr, base, self._cmp_consts, e, fr.func, fr.stack))
             if isinstance(base, Obj):
                 k = (base.name, e.attr)
@@ -1223,7 +1359,7 @@ class Interp:
         if isinstance(f, ast.Attribute):
             recv = self.eval(f.value, st, fr, effects)
         cev = None
-        if effects or callees:
+        if (effects or callees) and not self._quiet:
             cev = Call(ast.unparse(f), [c.qualname for c in callees], argvals, e, fr.func, fr.stack, False, recv)
             st.trace.append(cev)
         if callees and self.havoc_on_call:
@@ -1239,6 +1375,7 @@ class Interp:
                     del st.heap[hk]
                 for mk in [mk for mk in st.memo if any(a in mk[1] for a in attrs)]:
                     del st.memo[mk]
+                self._drop_facts(st, attrs)
         ret = self._call_result(e, f, fname, callees, fr)
         if cev is not None:
             cev.ret = ret
@@ -1337,7 +1474,64 @@ class Interp:
                 left = right
             return res
         v = self.eval(e, st, fr)
-        return self._truth_of_value(v)
+        t = self._truth_of_value(v)
+        if t is None and isinstance(e, (ast.Call, ast.Name, ast.Attribute, ast.Compare)):
+            k = self.canon(e, st, fr)
+            if k in st.facts:
+                return st.facts[k][0]
+        return t
+
+    def canon(self, e, st, fr):
+        """Canonical text of a predicate: names/attribute chains that denote abstract objects are replaced by the
+        object's access path, so the same predicate written over different local names is recognised."""
+        def go(n):
+            if isinstance(n, (ast.Name, ast.Attribute)):
+                self._quiet += 1
+                try:
+                    v = self.eval(n, st, fr)
+                finally:
+                    self._quiet -= 1
+                if isinstance(v, Obj):
+                    return "<" + v.name + ">"
+                if isinstance(v, Const):
+                    return repr(v.v)
+                if isinstance(v, EnumSet) and v.single():
+                    return f"{v.cls}.{v.single()}"
+                if isinstance(n, ast.Attribute):
+                    return go(n.value) + "." + n.attr
+                return n.id
+            if isinstance(n, ast.Call):
+                args = [go(a) for a in n.args] + [f"{kw.arg}={go(kw.value)}" for kw in sorted(n.keywords, key=lambda k: k.arg or "")]
+                f = n.func
+                fn = (go(f.value) + "." + f.attr) if isinstance(f, ast.Attribute) else ast.unparse(f)
+                return fn + "(" + ", ".join(args) + ")"
+            if isinstance(n, ast.Constant):
+                return repr(n.value)
+            if isinstance(n, ast.Compare) and len(n.ops) == 1:
+                return go(n.left) + " " + type(n.ops[0]).__name__ + " " + go(n.comparators[0])
+            return ast.unparse(n)
+        return go(e)
+
+    def pred_reads(self, e, fr):
+        """Attribute names a predicate expression may read (its own attribute loads + the read sets of the
+        in-package callees it reaches)."""
+        attrs = set()
+        for n in ast.walk(e):
+            if isinstance(n, ast.Attribute) and isinstance(n.ctx, ast.Load):
+                attrs.add(n.attr)
+            if isinstance(n, ast.Call):
+                callees, _res = fr.ft.resolve_call(n)
+                for c in callees:
+                    for g in self.eff.reachable([c], precise=False):
+                        for ef in self.eff.of(g):
+                            if ef.kind == "read":
+                                attrs.add(ef.attr)
+        return frozenset(attrs)
+
+    def _drop_facts(self, st, attrs):
+        if st.facts and attrs:
+            for k in [k for k, (t, deps) in st.facts.items() if deps & attrs]:
+                del st.facts[k]
 
     def _enum_val(self, v):
         return {self.repo.enums[v.cls][m] for m in v.members}
@@ -1530,6 +1724,21 @@ class Interp:
                     if self.assume(x, truth, st, fr) is False:
                         return False
                 return True
+            # `x == A or x == B` known true (or `x != A and x != B` known false): x is one of A, B
+            eqs = []
+            for x in test.values:
+                if isinstance(x, ast.Compare) and len(x.ops) == 1 and isinstance(x.ops[0], (ast.Eq, ast.Is) if not conj else (ast.NotEq, ast.IsNot)):
+                    cv = self.eval(x.comparators[0], st, fr)
+                    if isinstance(cv, EnumSet) and cv.single() is not None:
+                        eqs.append((ast.unparse(x.left), x.left, cv))
+            if len(eqs) == len(test.values) and len({e[0] for e in eqs}) == 1:
+                cur_v = self.eval(eqs[0][1], st, fr)
+                if isinstance(cur_v, EnumSet) and all(e[2].cls == cur_v.cls for e in eqs):
+                    nv = EnumSet(cur_v.cls, cur_v.members & {e[2].single() for e in eqs})
+                    if not nv.members:
+                        return False
+                    self.refine(eqs[0][1], nv, st, fr)
+                    return True
             # at least one operand differs: if exactly one is undecided, refine it
             und = [x for x in test.values if self.truth(x, st, fr) is None]
             if len(und) == 1:
@@ -1569,6 +1778,7 @@ class Interp:
                 return True
             if isinstance(op, (ast.In, ast.NotIn)):
                 pos = isinstance(op, ast.In) == truth
+                st.facts[self.canon(test, st, fr)] = (truth, self.pred_reads(test, fr))
                 if isinstance(a, EnumSet) and isinstance(b, ListV) and all(isinstance(x, EnumSet) and x.single() for x in b.items):
                     ms = {x.single() for x in b.items if x.cls == a.cls}
                     nv = EnumSet(a.cls, (a.members & ms) if pos else (a.members - ms))
@@ -1617,6 +1827,8 @@ class Interp:
             self.refine(test, Const(truth), st, fr)
         elif isinstance(v, Obj) and v.maybe_none:
             self.refine(test, Obj(v.name, v.cls, False) if truth else NONE, st, fr)
+        if isinstance(test, (ast.Call, ast.Attribute, ast.Name)):
+            st.facts[self.canon(test, st, fr)] = (truth, self.pred_reads(test, fr))
         return True
 
 
